@@ -851,6 +851,38 @@ def make_jobs(cases, origin):
     return jobs
 
 
+# a literal-only sub-expression that cannot succeed at run time, next to an operand that is made of literals but is
+# not itself a number constant (an element of a literal list, a built-in on a literal): "the compiler rejects a
+# literal expression as failing exactly when its run-time evaluation would fail"
+DOOMED = [("2147483647 + 1", "int overflow"), ("7 % 0", "zero divisor"), ("1 << 32", "shift amount"), ("0b11111111 + 0b1", "byte overflow"),
+          ("-(0 - 2147483647 - 1)", "negation overflow")]
+NEIGHBOURS = [("list_element", "[10, 20][1]"), ("nested_list_element", "[[4, 5], [6]][0][1]"), ("str_len", '"abc".len()'),
+              ("parenthesised_constant", "(20)"), ("sum_of_constants", "(7 + 13)")]
+
+
+def doomed_operand_programs():
+    out = []
+    for dn, (d, _why) in enumerate(DOOMED):
+        for nn, n in NEIGHBOURS:
+            for side in ("left", "right"):
+                for op in ("-", "*", "+"):
+                    e = "%s %s (%s)" % (n, op, d) if side == "left" else "(%s) %s %s" % (d, op, n)
+                    out.append(("doomed%d:%s:%s:%s" % (dn, nn, side, N.OP_NAME[op]), e))
+        out.append(("doomed%d:list_literal_element" % dn, "[[4, 5][0] * (%s), 1]" % d))
+    return out
+
+
+def doomed_job(item):
+    name, e = item
+    src = 'print "@@BEGIN"\nx = %s\nprint x\n' % e
+    r, _, _ = core.run_program({"main.ms": src}, typed=True, cpu=20)
+    if r.cls in ("wall_timeout", "cpu_timeout", "spawn_error"):
+        return {"name": name, "verdict": "inconclusive", "why": r.cls}
+    rejected = "Did not compile successfully" in r.out + r.err and core.BANNER not in r.err and "@@BEGIN" not in r.out
+    return {"name": name, "expr": e, "verdict": "rejected" if rejected else ("runs_then_fails" if r.cls != "ok" else "runs"),
+            "src": src, "run": r.brief()}
+
+
 def run(ctx):
     out = core.Outcome()
     cat = catalogue()
@@ -870,6 +902,24 @@ def run(ctx):
             out.inconclusive.append(str(res)[-500:])
             continue
         merge(total, res)
+    doomed = core.pmap(doomed_job, doomed_operand_programs(), chunksize=8)
+    n_doomed = 0
+    for status, res in doomed:
+        if status != "ok":
+            out.inconclusive.append(str(res)[-300:])
+            continue
+        total["runs"] += 1
+        if res["verdict"] == "inconclusive":
+            out.inconclusive.append("%s: %s" % (res["name"], res["why"]))
+        elif res["verdict"] == "rejected":
+            n_doomed += 1
+        else:
+            out.violations.append(core.Violation(
+                "C06:%s:doomed_subexpression_not_rejected" % res["name"].split(":", 1)[1],
+                "`%s`: contains a literal sub-expression that cannot succeed, but the compiler accepts it (%s)" % (
+                    res["expr"], res["verdict"]),
+                {"expression": res["expr"], "observed": res["verdict"], "files": {"main.ms": res["src"]}, "run": res["run"]}))
+    out.coverage["doomed_subexpressions_rejected_at_compile_time"] = n_doomed
     out.evaluations = total["runs"]
     out.distinct = set(total["hashes"])
     out.inconclusive.extend(total["inconclusive"])
